@@ -55,7 +55,7 @@ try:
                                cwd=d, env=env, stdout=subprocess.PIPE, stderr=subprocess.STDOUT, text=True)
             print("TESTS:", [l for l in r.stdout.splitlines() if ("passed" in l or "failed" in l or "error" in l)][-1:] or r.returncode)
     for pid in pids:
-        env = dict(os.environ, VERIF_REPO=d)
+        env = dict(os.environ, VERIF_REPO=d, VERIF_OUT=d + ".out")
         r = subprocess.run(["/venv/bin/python", "/verif/run.py", pid, "--tier", tier], env=env,
                            stdout=subprocess.PIPE, stderr=subprocess.STDOUT, text=True, cwd="/verif")
         lines = r.stdout.strip().splitlines()
